@@ -225,7 +225,9 @@ def render_body(p, kind, hk):
         h = "%s => %s" % (hk, h)
         parts.insert(pos, h)
     opts = ""
-    if p.joiner == "Stamp":
+    if p.joiner == "Stamp" and getattr(p, "joiner_spelling", None) and not asy:
+        opts = "custom_joiner(%s) " % p.joiner_spelling
+    elif p.joiner == "Stamp":
         opts = "custom_joiner(%s) " % (("jnta!" if kind.startswith("try_") else "jna!") if asy else "jn!")
     elif p.joiner == "Lazy":
         opts = "custom_joiner(%s) lazy_branches(true) " % (("jntla!" if kind.startswith("try_") else "jnla!") if asy else "jnl!")
@@ -561,6 +563,32 @@ def gen_joiner_capture_matrix(pid0):
     return progs
 
 
+JOINER_SPELLINGS = ["jf2", "vrt::probes::jf2::<_, _>", "JPS.j2", "jp().j2", "(|a, b| jf2(a, b))", "mkj()"]
+
+
+def gen_joiner_spelling_matrix(pid0):
+    """custom_joiner written as something else than a macro: function path, generic path, `receiver.method`, method on a
+    call result, parenthesized closure, call expression, block. Fixed arity 2, so two branches that are active together in
+    every joined step; sync kinds only (an async joiner has to await, which only a macro can do at the call site)."""
+    progs = []
+    pid = pid0
+    for sp in JOINER_SPELLINGS:
+        for depths in ((1, 1), (2, 2), (2, 1), (3, 3)):
+            p = Prog(pid)
+            p.joiner = "Stamp"
+            p.joiner_spelling = sp
+            p.tags = ["joiner", "rand", "joinspell"]
+            for d in depths:
+                steps = [[Act("Src", p.nid()), Act("Map", p.nid())]]
+                for k in range(1, d):
+                    steps.append([Act("AndThen", p.nid()), Act("Map", p.nid())])
+                p.branches.append({"named": False, "mut": False, "steps": steps})
+            p.no_async = True
+            progs.append((p, False))
+            pid += 1
+    return progs
+
+
 def gen_names_matrix(pid0, tier, rng):
     """C12, systematic: for small depth profiles (equal and unequal depths) every assignment of {unnamed, `let`, `let mut`}
     to the branches (not all unnamed); every action of every later step carries a capture that reads every name."""
@@ -652,6 +680,8 @@ def build_corpus(tier, seed):
     progs += cm
     pid = max(p.id for p, _ in progs) + 1
     progs += gen_joiner_capture_matrix(pid)
+    pid = max(p.id for p, _ in progs) + 1
+    progs += gen_joiner_spelling_matrix(pid)
     pid = max(p.id for p, _ in progs) + 1
     progs += gen_names_matrix(pid, tier, rng)
     return progs
